@@ -54,12 +54,19 @@ def _run(cmd, cwd=None, timeout=1800, env=None):
         return 124, (e.stdout or b"").decode() if isinstance(e.stdout, bytes) else (e.stdout or ""), "TIMEOUT"
 
 
-def coq_build():
-    """Full .vo build of the development (incremental). Returns (ok, log)."""
+def coq_build(pid=None):
+    """Full .vo build (incremental) of everything the property depends on
+    (Properties/<pid>.v and Exec/Run<pid>.v with their dependency closure);
+    setup_cmd builds the whole development. Returns (ok, log)."""
     os.makedirs(os.path.join(ROOT, ".work"), exist_ok=True)
     with open(os.path.join(ROOT, ".work", "build.lock"), "w") as lock:
         fcntl.flock(lock, fcntl.LOCK_EX)
-        rc, out, err = _run(["bash", os.path.join(COQ, "build.sh")], cwd=COQ, timeout=3000)
+        targets = []
+        if pid:
+            for t in (f"theories/Properties/{pid}.vo", f"theories/Exec/Run{pid}.vo"):
+                if os.path.exists(os.path.join(COQ, t[:-1])):
+                    targets.append(t)
+        rc, out, err = _run(["bash", os.path.join(COQ, "build.sh"), *targets], cwd=COQ, timeout=3000)
         return rc == 0, out + err
 
 
@@ -436,7 +443,7 @@ def main(prop, argv=None):
     known = load_known(pid)
 
     # 1. the development builds, no forbidden construct, property file re-checked
-    ok, log = coq_build()
+    ok, log = coq_build(pid)
     forb = scan_forbidden()
     if not ok:
         violations.append(("Coq development does not build", {"kind": "proof-broken", "theorem": "make", "log": log[-3000:]}, True))
